@@ -203,10 +203,11 @@ func (ex *Exec) oblige(st *State, kind, name string, goal Term, tags []string, p
 	o := &Obligation{Name: ex.rootKey + "@" + ex.p.cfgName + "#" + name, Kind: kind, Tags: tags, Func: ex.rootKey, Cfg: ex.p.cfgName,
 		Goal: goal, PC: st.pc, ScriptLen: len(ex.script), Pos: pos, Text: text, ex: ex}
 	for _, sk := range ex.curSkolems {
-		if strings.Contains(goal.S, sk.S) {
+		if containsToken(goal.S, sk.S) {
 			o.Skolems = append(o.Skolems, sk)
 		}
 	}
+
 	ex.obls = append(ex.obls, o)
 	// assert-then-assume
 	ex.assume(st.pc, goal)
@@ -968,4 +969,20 @@ type memoEnt struct {
 	name string
 	idx  int
 	line string
+}
+
+func containsToken(s, name string) bool {
+	i := 0
+	for {
+		j := strings.Index(s[i:], name)
+		if j < 0 {
+			return false
+		}
+		j += i
+		end := j + len(name)
+		if (j == 0 || !isNameChar(s[j-1])) && (end >= len(s) || !isNameChar(s[end])) {
+			return true
+		}
+		i = end
+	}
 }
